@@ -45,7 +45,7 @@ COMPONENTS = {
     "oracle": ["solo run of the same operation list in a fresh thread"],
 }
 PROBES = ["both_in_read_decimal", "both_in_parse", "both_in_writer_dump", "both_in_validate",
-          "family_decimal", "family_logical", "family_general", "family_parse", "family_json",
+          "family_decimal", "family_logical", "family_general", "family_parse", "family_json", "family_resolve",
           "three_tasks", "strategy_pct", "strategy_uniform", "strategy_sticky"]
 
 
@@ -107,7 +107,7 @@ def _logical_datum(ch):
 
 def build(ch, F):
     """Returns (family, base_env, task op lists)."""
-    fam = ch.weighted([4, 2, 4, 2, 2])
+    fam = ch.weighted([4, 2, 4, 2, 2, 3])
     E = {}
     tasks = []
     ntasks = 3 if ch.chance(20) else 2
@@ -151,6 +151,34 @@ def build(ch, F):
                 return False
         return True
 
+    if fam == 5:
+        # schema resolution against one SHARED parsed reader schema
+        wfields = [("a", "int"), ("b", "string"), ("c", "float"), ("d", "long"), ("g", ["null", "string"])]
+        W = {"type": "record", "name": "Rec", "fields": [{"name": n, "type": t} for n, t in wfields]}
+        promo = {"a": ch.pick(["int", "long", "double"]), "b": ch.pick(["string", "bytes"]), "c": ch.pick(["float", "double"]),
+                 "d": ch.pick(["long", "double"]), "g": ["null", "string"]}
+        rf = [{"name": n, "type": promo[n]} for n, _ in ch.shuffle(wfields) if ch.chance(80)]
+        rf.insert(ch.draw(len(rf) + 1), {"name": "e", "type": "string", "default": "added"})
+        if ch.chance(50):
+            rf.append({"name": "renamed", "type": "long", "aliases": ["zz"], "default": 5})
+        Rd = {"type": "record", "name": "Rec", "fields": rf}
+        E["P"] = F.parse_schema(W)
+        E["RD"] = F.parse_schema(Rd)
+        for t in range(ntasks):
+            mk = lambda: {"a": ch.rng_int(-1000, 1000), "b": ch.pick(["x", "beta", "é"]), "c": float(ch.draw(100)) / 4,
+                          "d": ch.rng_int(-(1 << 40), 1 << 40), "g": ch.pick([None, "s"])}
+            E[f"D{t}"] = mk()
+            E[f"R{t}"] = [mk() for _ in range(1 + ch.draw(3))]
+            if not materialise("P", f"D{t}", f"R{t}", False):
+                return None
+            lst = []
+            for j in range(1 + ch.draw(2)):
+                if ch.draw(2):
+                    lst.append({"op": "sread", "schema": "P", "bytes": f"B_D{t}", "reader": "RD"})
+                else:
+                    lst.append({"op": "cread", "bytes": f"C_R{t}", "reader": "RD"})
+            tasks.append(lst)
+        return "resolve", E, tasks
     if fam == 0:
         # decimals of differing precision / scale, bytes and fixed; shared or distinct parsed schemas
         for t in range(ntasks):
@@ -232,6 +260,10 @@ def _task_fn(F, E, lst):
 
 def _run_sched(F, E, tasks, seed, strategy):
     sc = sched.Scheduler(seed, strategy, max_steps=400000)
+    # every execution gets fresh copies of all objects (shared among its tasks): a race in
+    # the FIRST use of a shared parsed schema (e.g. a lazily filled per-schema cache) would
+    # otherwise be masked by the solo runs having used the same objects before
+    E = copy.deepcopy(E)
     for i, lst in enumerate(tasks):
         sc.spawn(f"T{i}", _task_fn(F, E, lst))
     res = sc.run()
@@ -263,7 +295,7 @@ def run_one(ch, ctx):
     steps = 0
     for i, lst in enumerate(tasks):
         sc = sched.Scheduler(0, ("uniform",))
-        sc.spawn(f"T{i}", _task_fn(F, E, lst))
+        sc.spawn(f"T{i}", _task_fn(F, copy.deepcopy(E), lst))
         r = sc.run()[f"T{i}"]
         if r[0] != "ok":
             raise Violation("solo", "task-crashed", detail={"task": i, "res": jsonable(r[1])}, scenario=desc)
@@ -339,7 +371,7 @@ def refine(recorded):
     steps = 0
     for i, lst in enumerate(tasks):
         sc = sched.Scheduler(0, ("uniform",))
-        sc.spawn(f"T{i}", _task_fn(F, E, lst))
+        sc.spawn(f"T{i}", _task_fn(F, copy.deepcopy(E), lst))
         solo.append(sc.run()[f"T{i}"][1])
         steps += sc.step
     sseed = ch.fork("sched")
